@@ -27,10 +27,42 @@ def split (sep s : String) : List String :=
 
 def startsWith (s sep : String) : Bool := (stripPrefix sep.toList s.toList).isSome
 
-/-- `str.upper()` on ASCII letters (non-ASCII characters are left alone: CPython's case mapping
-for them is outside the model) -/
-def upperChar (c : Char) : Char := if 'a' ≤ c ∧ c ≤ 'z' then Char.ofNat (c.toNat - 32) else c
+/-- The non-ASCII letters of the model's alphabet: `(c, c.upper(), representative of c's class under
+re.IGNORECASE)`.  CPython facts (checked against the running interpreter by the `casetable` case of
+the correspondence run): on these characters `str.upper()` is one character long, and
+`re.IGNORECASE` is an equivalence relation.  The KELVIN, ANGSTROM and OHM *signs* are their own
+upper case but fold to `k`, `å`, `ω` under `re.IGNORECASE`: there `__cmp` and `__match` disagree. -/
+def caseTable : List (Char × Char × Char) :=
+  [ ('\u212a', '\u212a', 'k'),          -- KELVIN SIGN
+    ('\u017f', 'S', 's'),               -- LATIN SMALL LETTER LONG S
+    ('\u0131', 'I', 'i'),               -- LATIN SMALL LETTER DOTLESS I
+    ('\u00b5', '\u039c', '\u03bc'),     -- MICRO SIGN
+    ('\u03bc', '\u039c', '\u03bc'),     -- GREEK SMALL LETTER MU
+    ('\u039c', '\u039c', '\u03bc'),     -- GREEK CAPITAL LETTER MU
+    ('\u212b', '\u212b', '\u00e5'),     -- ANGSTROM SIGN
+    ('\u00e5', '\u00c5', '\u00e5'),     -- å
+    ('\u00c5', '\u00c5', '\u00e5'),     -- Å
+    ('\u00e9', '\u00c9', '\u00e9'),     -- é
+    ('\u00c9', '\u00c9', '\u00e9'),     -- É
+    ('\u2126', '\u2126', '\u03c9'),     -- OHM SIGN
+    ('\u03c9', '\u03a9', '\u03c9'),     -- ω
+    ('\u03a9', '\u03a9', '\u03c9') ]    -- Ω
+
+/-- `str.upper()` per character: ASCII letters, the letters of `caseTable`; every other character is
+left alone (CPython's case mapping for the rest of Unicode is outside the model) -/
+def upperChar (c : Char) : Char :=
+  if 'a' ≤ c ∧ c ≤ 'z' then Char.ofNat (c.toNat - 32)
+  else match caseTable.lookup c with
+    | some (u, _) => u
+    | none => c
 def upper (s : String) : String := String.ofList (s.toList.map upperChar)
+
+/-- representative of a character's class under `re.IGNORECASE` (same alphabet) -/
+def reKey (c : Char) : Char :=
+  if 'A' ≤ c ∧ c ≤ 'Z' then Char.ofNat (c.toNat + 32)
+  else match caseTable.lookup c with
+    | some (_, k) => k
+    | none => c
 
 /-- what `Resolver.__translate` emits per pattern character -/
 inductive Tok
@@ -42,9 +74,9 @@ inductive Tok
 def translate (pat : List Char) : List Tok :=
   pat.map (fun c => if c = '*' then .star else if c = '?' then .any else .lit c)
 
-/-- character equality under `re.IGNORECASE` (ASCII) -/
+/-- character equality under `re.IGNORECASE` -/
 def eqChar (ic : Bool) (x c : Char) : Bool :=
-  if ic then upperChar x == upperChar c else x == c
+  if ic then reKey x == reKey c else x == c
 
 /-- `.*` against every split point -/
 def matchStar (k : List Char → Bool) : List Char → Bool
